@@ -91,12 +91,20 @@ func c09SetName(i int) string {
 }
 
 // address sets of signed peer records (indices of base addresses)
-var c09RecSets = [][]int{{0}, {1}, {0, 1}, {2}}
+var c09RecSets = [][]int{{0}, {1}, {0, 1}, {2}, {0, 1}, {1}}
+
+// c09RecSuf: the record lists its addresses WITH a /p2p/<the peer itself> suffix (the address book strips it, so the
+// model is the same as for the unsuffixed set; "addresses with and without /p2p suffix" of the quantifier)
+var c09RecSuf = []bool{false, false, false, false, true, true}
 
 func c09RecSetName(i int) string {
 	var s []string
 	for _, a := range c09RecSets[i] {
-		s = append(s, fmt.Sprintf("a%d", a+1))
+		if c09RecSuf[i] {
+			s = append(s, fmt.Sprintf("a%d/p2p/self", a+1))
+		} else {
+			s = append(s, fmt.Sprintf("a%d", a+1))
+		}
 	}
 	return "{" + strings.Join(s, ",") + "}"
 }
@@ -165,7 +173,11 @@ func c09BuildUniverse(seed int64) (*c09Universe, error) {
 			for si, set := range c09RecSets {
 				rec := &peer.PeerRecord{PeerID: u.peers[p], Seq: uint64(s + 1)}
 				for _, a := range set {
-					rec.Addrs = append(rec.Addrs, u.base[a])
+					if c09RecSuf[si] {
+						rec.Addrs = append(rec.Addrs, u.base[a].Encapsulate(ma.StringCast("/p2p/"+u.peers[p].String())))
+					} else {
+						rec.Addrs = append(rec.Addrs, u.base[a])
+					}
 				}
 				env, err := record.Seal(rec, u.privs[p])
 				if err != nil {
